@@ -14,7 +14,13 @@
 #include <string.h>
 #include <unistd.h>
 #include <stdio.h>
-void vs_point_user(long code);
+/* In the scheduler builds vs_point_user() is a scheduling point (native/vsched.c); elsewhere it only counts: the counter is part of the
+ * process digest of the exec harness, so ANY use of such a function by the library shows up as residue in the caller's libc state
+ * (the caller may be in the middle of its own strtok() loop, or may be about to exec with strings it got from getpwuid() / ttyname()). */
+__attribute__((weak)) void vs_point_user(long code);
+int verif_nonreentrant_calls;
+static void nr_point(long code) { __atomic_add_fetch(&verif_nonreentrant_calls, 1, __ATOMIC_RELAXED); if (vs_point_user) vs_point_user(code); }
+#define vs_point_user nr_point
 struct tm *vs_localtime(const time_t *t) { static struct tm b; struct tm *r = localtime_r(t, &b); vs_point_user(20); return r; }
 struct tm *vs_gmtime(const time_t *t) { static struct tm b; struct tm *r = gmtime_r(t, &b); vs_point_user(21); return r; }
 char *vs_ctime(const time_t *t) { static char b[64]; char *r = ctime_r(t, b); vs_point_user(22); return r; }
